@@ -97,7 +97,7 @@ def main():
             "guard": "fastrace_verif",
             "enable": "RUSTFLAGS=\"--cfg fastrace_verif\" (set by /verif/check for the hooked target directory /verif/target/hooked)",
             "baseline_off_cmd": "cd /repo && cargo test --workspace --no-fail-fast --offline",
-            "source_commits": ["4df235e", "cfeb20b"],
+            "source_commits": ["4df235e", "cfeb20b", "02efe50"],
             "add_only": True,
         },
         "engines": [
